@@ -4286,6 +4286,11 @@ class NameCheckVisitor(node_visitor.ReplacingNodeVisitor):
             with self.scopes.subscope() as body_scope:
                 pass
         with self.scopes.subscope() as else_scope:
+            if orelse and not always_entered:
+                # The else clause runs after any number of iterations, including none.
+                with self.scopes.subscope() as not_entered_scope:
+                    pass
+                self.scopes.combine_subscopes([not_entered_scope, body_scope])
             self._generic_visit_list(orelse)
         self.scopes.combine_subscopes([body_scope, else_scope])
 
